@@ -120,15 +120,24 @@ def find_call(recs, func, fid, leaves):
     return cand[0] if cand else None
 
 
-def shared_source(recs, j, f):
-    """f is a source of target j only through positional values that another target lists as well as a whole
-    (approximation of "comes from a shared variable"): the rewriter documents no behaviour for that."""
+class _Leaves:
+    def __init__(self, leaves):
+        self.leaves = leaves
+
+
+def shared_source(recs, j, f, leaves):
+    """f is a source of target j only through an identifier, another target lists f too, and the two calls are built
+    from a common identifier (approximation of "comes from a shared variable"): the rewriter documents no behaviour
+    for that.  Two targets that each write the same file name in their own lists share nothing."""
     mine = recs[j][1]
     if f in [('s', os.path.normpath(x[1])) for x in mine.get('lit', [])]:
         return False
-    for k, (_, r) in enumerate(recs):
+    rd = _Leaves(leaves)
+    my_ids = spine_ids(rd, L.tracked_call(leaves[recs[j][0]][2])) if recs[j][0] is not None else None
+    for k, (li, r) in enumerate(recs):
         if k != j and r['src'] is not None and f in [('s', os.path.normpath(x[1])) for x in r['src'] if x[0] == 's']:
-            return True
+            if my_ids is None or li is None or my_ids & spine_ids(rd, L.tracked_call(leaves[li][2])):
+                return True
     return False
 
 
@@ -191,7 +200,7 @@ def model_apply(recs, leaves, env, cmd):
                         norm.append(f)
                         t['add'].append(f)
             else:
-                if any(f in norm and shared_source(recs, j, f) for f in files):
+                if any(f in norm and shared_source(recs, j, f, leaves) for f in files):
                     raise ModelUnspecified('the file reaches the target through a list another target uses too')
                 for f in files:
                     if f in norm:
@@ -359,23 +368,27 @@ def multiset_diff(a, b):
 
 
 def compare_diff(old, new, touched_keys, add, rm, src_touched):
-    """Differences between the records of a statement before/after that the command does not permit."""
+    """Differences between the records of a statement before/after that the command does not permit.  add / rm are
+    the strings a SOURCE operation of the step may add / remove: only the source list may gain / lose them; a file
+    list kept in a keyword the step does not address (extra_files under a source operation) must not change at all.
+    A list difference is reported as (what, key, (gone, came))."""
     d = []
     if old['fname'] != new['fname']:
-        return [('fname', None)]
+        return [('fname', None, None)]
     if old['pos'][:1] != new['pos'][:1]:
-        d.append(('name', None))
+        d.append(('name', None, None))
     if old['src'] is not None:
         gone, came = multiset_diff(old['src'], new['src'])
         if any(x not in rm for x in gone) or any(x not in add for x in came):
-            d.append(('src', None))
+            d.append(('src', None, (gone, came)))
     if old['src'] is None or not src_touched:
-        if old['pos'] != new['pos']:
-            d.append(('pos', None))
+        # (a changed source multiset is reported once, as 'src')
+        if old['pos'] != new['pos'] and not any(w == 'src' for w, _, _ in d):
+            d.append(('pos', None, None))
     ok = [k for k, _ in old['kw'] if k not in touched_keys]
     nk = [k for k, _ in new['kw'] if k not in touched_keys]
     if ok != nk:
-        d.append(('kwset' if sorted(ok) != sorted(nk) else 'kworder', tuple(sorted(set(ok) ^ set(nk)))))
+        d.append(('kwset' if sorted(ok) != sorted(nk) else 'kworder', tuple(sorted(set(ok) ^ set(nk))), None))
     else:
         nd = dict(new['kw'])
         for k, v in old['kw']:
@@ -385,10 +398,13 @@ def compare_diff(old, new, touched_keys, add, rm, src_touched):
                 continue
             if v == ('items',):
                 gone, came = multiset_diff(old['items_kw'].get(k) or [], new['items_kw'].get(k) or [])
-                if any(x not in rm for x in gone) or any(x not in add for x in came):
-                    d.append(('kw', k))
+                if k == 'sources':
+                    # part of the source list compared above
+                    continue
+                if gone or came:
+                    d.append(('kw', k, (gone, came)))
             elif nd[k] != v:
-                d.append(('kw', k))
+                d.append(('kw', k, None))
     return d
 
 
@@ -443,7 +459,8 @@ def untaken_branch_fails(rd):
 
 def allowed_leaves(reading, cmds):
     """Leaf indices a step may edit: the addressed call's statement and, for source/extra-file operations, the
-    assignments of the identifiers its source arguments are built from (transitively)."""
+    assignments of the identifiers the ADDRESSED list (sources for add/rm, extra_files for add_extra_files /
+    rm_extra_files) is built from (transitively): the other list of the target is not the command's to edit."""
     leaves = reading.leaves
     allowed = set()
     for cmd in cmds:
@@ -463,7 +480,10 @@ def allowed_leaves(reading, cmds):
         allowed.add(li)
         if cmd['type'] == 'target' and cmd['operation'] in ('src_add', 'src_rm', 'extra_files_add', 'extra_files_rm'):
             call = L.tracked_call(leaves[li][2])
-            exprs = list(call[2][1:]) + [v for k, v in call[3] if k in L.ITEM_KW]
+            if cmd['operation'].startswith('src'):
+                exprs = list(call[2][1:]) + [v for k, v in call[3] if k == 'sources']
+            else:
+                exprs = [v for k, v in call[3] if k == 'extra_files']
             names = []
             for e in exprs:
                 names += L.free_ids(e)
@@ -579,6 +599,51 @@ def explain(oc, nc, what, key):
     return 'unexplained'
 
 
+def addressed_target_call(rd, cmd):
+    if cmd['type'] != 'target':
+        return None
+    try:
+        j = find_call(rd.records, 'target', cmd['target'], rd.leaves)
+    except ModelUnspecified:
+        return None
+    if j is None:
+        return None
+    return L.tracked_call(rd.leaves[rd.records[j][0]][2])
+
+
+def bare_string_list_kwarg(rd, cmds):
+    """Operation name if a step edits a file-list keyword whose value is ONE string, not an array (`extra_files`
+    and `sources` take `str | file | array`, so that is a valid way to write a list of one)."""
+    for c in cmds:
+        call = addressed_target_call(rd, c)
+        if call is None or c['operation'] not in ('extra_files_add', 'extra_files_rm'):
+            continue
+        for k, v in call[3]:
+            if k == 'extra_files' and L.evalm(v, rd.env)[0] == 's':
+                return c['operation']
+    return None
+
+
+def edits_call_and_nested_list(rd, cmds):
+    """One removal command names a file written directly among the positional arguments of the call AND a file
+    written in an array / files() nested in the same call: two extents, one inside the other, are re-printed."""
+    for c in cmds:
+        call = addressed_target_call(rd, c)
+        if call is None or c['operation'] != 'src_rm':
+            continue
+        files = [os.path.normpath(f) for f in c['sources']]
+        direct = nested = False
+        for a in call[2][1:]:
+            a = L.unparen(a)
+            if a[0] == 'str':
+                direct = direct or os.path.normpath(a[1]) in files
+            else:
+                nested = nested or any(os.path.normpath(x[1]) in files for x in L.literal_items(a))
+        if direct and nested:
+            return True
+    return False
+
+
 def check_step(cmds, form, t0, t1, res, counters):
     """All clauses for one process run.  Returns list of (key, what)."""
     pre = []
@@ -590,6 +655,13 @@ def check_step(cmds, form, t0, t1, res, counters):
         t0 = t0.replace('\r\n', '\n')
         t1 = t1.replace('\r\n', '\n')
         counters['crlf_inputs'] += 1
+    if t1.count('\r') > t0.count('\r'):
+        # Build files are read in text mode (universal newlines): a carriage return on its own is a line break, so a raw
+        # one that the command put into the file (no command names one) does not read back as a carriage return
+        counters['raw_cr_written'] += 1
+        return pre + [('C17:reprint:raw-carriage-return', '%s wrote a raw carriage return into the file (the original has the escape '
+                       '\\r): a build file is read with universal newlines, the string now reads back with a line feed'
+                       % '+'.join(cmd_label(c) for c in cmds))]
     return pre + check_step_lf(cmds, form, t0, t1, res, counters)
 
 
@@ -667,7 +739,8 @@ def check_step_lf(cmds, form, t0, t1, res, counters):
     append = any(c['type'] == 'target' and c['operation'] == 'target_add' for c in cmds)
     runs, why = L.skeleton_match(t0, t1, rd0.leaves, allowed, append)
     if runs is None:
-        V.append(('C17:locality:other-text-changed', '%s: %s' % (ops, why)))
+        sit = ':call-and-nested-list-edited-by-one-command' if edits_call_and_nested_list(rd0, cmds) else ''
+        V.append(('C17:locality:other-text-changed' + sit, '%s: %s' % (ops, why)))
         return V
     # ---- (1) the touched file parses
     perr = real_parse_error(t1)
@@ -741,6 +814,13 @@ def check_step_lf(cmds, form, t0, t1, res, counters):
         V.append(('C17:locality:too-many-statements', '%s edited %d statements' % (ops, edited)))
     if V:
         return V
+    if rd0.eval_ok and rd1 is not None and not rd1.eval_ok:
+        # "still parses" is about a build file Meson accepts: a statement that evaluated before must still evaluate
+        bare = bare_string_list_kwarg(rd0, cmds)
+        V.append(('C17:value:%s:bare-string-kwarg' % bare if bare else 'C17:value:%s:no-longer-evaluates' % ops,
+                  '%s: the file evaluated before and fails to evaluate now%s' %
+                  (ops, ' (the addressed file-list keyword holds one bare string)' if bare else '')))
+        return V
     # ---- (2) program level: every tracked call has exactly the expected record
     if model_unspec is None and rd0.eval_ok and rd1 is not None and rd1.eval_ok:
         V += check_program(exp, touched, rd0, rd1, ops, cmds, form, counters, edited_vars)
@@ -753,9 +833,10 @@ def check_step_lf(cmds, form, t0, t1, res, counters):
 
 
 def permitted(cmds):
-    """What a step may change in a re-printed statement: (addressed keyword names, source/extra-file strings that
-    may appear, strings that may disappear, whether positional sources may be reordered)."""
-    keys, add, rm = set(), [], []
+    """What a step may change in a re-printed statement: (addressed keyword names, strings a source operation may
+    add, strings a source operation may remove, strings any file-list operation may add, ... remove, whether
+    positional sources may be reordered)."""
+    keys, add, rm, add_any, rm_any = set(), [], [], [], []
     src_touched = False
     for c in cmds:
         if c['type'] == 'default_options':
@@ -765,14 +846,26 @@ def permitted(cmds):
         else:
             files = [('s', f) for f in c['sources']] + [('s', os.path.normpath(f)) for f in c['sources']]
             if c['operation'] in ('src_add', 'extra_files_add'):
-                add += files
+                add_any += files
             elif c['operation'] in ('src_rm', 'extra_files_rm'):
+                rm_any += files
+            if c['operation'] == 'src_add':
+                add += files
+            elif c['operation'] == 'src_rm':
                 rm += files
             if c['operation'] in ('src_add', 'src_rm'):
                 src_touched = True
             if c['operation'].startswith('extra_files'):
                 keys.add('extra_files')
-    return keys, add, rm, src_touched
+    return keys, add, rm, add_any, rm_any, src_touched
+
+
+def named_files(cmds):
+    out = []
+    for c in cmds:
+        if c['type'] == 'target':
+            out += [('s', f) for f in c['sources']] + [('s', os.path.normpath(f)) for f in c['sources']]
+    return out
 
 
 def check_edited_statement(ost, nst, cmds, touched, rd0, counters, ops):
@@ -788,7 +881,8 @@ def check_edited_statement(ost, nst, cmds, touched, rd0, counters, ops):
             ids.append(x)
     envs, capped = domain_envs([orhs, nrhs], rd0.env)
     counters['domain_capped'] += capped
-    keys, add, rm, src_touched = permitted(cmds)
+    keys, add, rm, add_any, rm_any, src_touched = permitted(cmds)
+    named = named_files(cmds)
     oc = L.tracked_call(ost)
     nc = L.tracked_call(nst)
     seen = set()
@@ -807,19 +901,28 @@ def check_edited_statement(ost, nst, cmds, touched, rd0, counters, ops):
             if UNSPECM in oi:
                 counters['skipped_unspecified_env'] += 1
                 continue
+            # an array / files() assignment: which list it feeds is decided by allowed_leaves (only assignments
+            # that feed the addressed list may be edited at all)
             gone, came = multiset_diff(oi, ni)
-            diffs = [('src', None)] if (any(x not in rm for x in gone) or any(x not in add for x in came)) else []
+            diffs = [('src', None, (gone, came))] if (any(x not in rm_any for x in gone) or any(x not in add_any for x in came)) else []
             a, b = L.unparen(orhs), L.unparen(nrhs)
             if a[0] == 'call' and b[0] == 'call' and a[1] == b[1] == 'files':
                 a, b = ('arr', a[2]), ('arr', b[2])
         else:
             return [('C17:locality:statement-kind', '%s: call turned into something else' % ops)]
-        for what, key in diffs:
+        for what, key, moved in diffs:
             if (what, key) in seen:
                 continue
             seen.add((what, key))
             counters['value_changes'] += 1
-            if what in ('kw', 'src', 'pos', 'name'):
+            if moved is not None and (moved[0] or moved[1]) and all(x in named for x in moved[0] + moved[1]):
+                # not a re-printing accident: a file the command names left / entered a list the command does not address
+                # (or the wrong way round)
+                lst = 'sources' if what == 'src' else key
+                V.append(('C17:value:%s:%s' % (ops, lst if what == 'src' or key in keys else 'collateral-' + lst),
+                          '%s: the %s of the edited statement lost %r and gained %r: %s  ->  %s'
+                          % (ops, lst, [x[1] for x in moved[0]], [x[1] for x in moved[1]], L.unparse(orhs)[:200], L.unparse(nrhs)[:200])))
+            elif what in ('kw', 'src', 'pos', 'name'):
                 lab = explain(a, b, what, key)
                 V.append(('C17:reprint:value:' + lab,
                           '%s: %s of the re-printed statement no longer evaluates the same (e.g. under %s): %s  ->  %s'
@@ -892,6 +995,14 @@ def check_program(exp, touched, rd0, rd1, ops, cmds, form, counters, edited_vars
                 ev_ = dict(er['kw']).get(key)
                 kk = 'C17:value:kwargs-set:cli-bool-false' if (form == 'cli' and ev_ == ('b', False) and vv == ('b', True)) \
                     else 'C17:value:%s:%s' % (ops, key)
+                if ev_ is not None and ev_[0] == 's' and '\\' in ev_[1] and any(c['type'] == 'kwargs' and c['operation'] == 'set' for c in cmds):
+                    # the requested text is to be stored as it is: it is a value, not Meson source
+                    kk = 'C17:value:kwargs-set:backslash-in-value'
+                if vv == ('items',):
+                    vv, ev_ = gr['items_kw'].get(key), er['items_kw'].get(key)
+                    bare = bare_string_list_kwarg(rd0, cmds) if key == 'extra_files' else None
+                    if bare:
+                        kk = 'C17:value:%s:bare-string-kwarg' % bare
                 V.append((kk, 'after %s keyword %s of %s(%s) is %r, requested %r' % (ops, key, er['fname'], name, vv, ev_)))
             elif what == 'src' and edited_vars and eli is not None and \
                     any(v not in spine_ids(rd0, L.tracked_call(rd0.leaves[eli][2])) for v in edited_vars):
@@ -1013,7 +1124,7 @@ def new_counters():
     return {k: 0 for k in ('skipped_unspecified', 'refusals', 'info_cmds', 'text_unchanged', 'unparsable', 'edited_statements',
                            'program_level_skipped', 'program_level_compared', 'domain_capped', 'domain_evaluations',
                            'skipped_unspecified_env', 'value_changes', 'info_skipped_unknown', 'info_compared', 'processes',
-                           'observer_runs', 'steps', 'crlf_inputs', 'crash_located', 'others_only_compared')}
+                           'observer_runs', 'steps', 'crlf_inputs', 'crash_located', 'others_only_compared', 'raw_cr_written')}
 
 
 def run_rewrite(d, argv, cold=False):
@@ -1081,7 +1192,7 @@ def run_case(case, cold=False):
                         uniq.append(c)
                 viol += [(k.replace('C17:info:', 'C17:info-in-run:'), w + ' (info requested before and after the edit in one run)')
                          for k, w in check_info(res['out'], uniq, rd, counters)]
-        if not viol and case.get('observe'):
+        if not viol and case.get('observe') and not (case['observe'] == 'if-changed' and texts[-1] == texts[0]):
             try:
                 rd = L.read_program(texts[-1])
             except (SyntaxFail, Unspecified):
@@ -1328,6 +1439,7 @@ ALPHABET = [
     ('kw-rm-dep', c_kwargs('remove', 'target', 'prog', {'dependencies': 'dep'})),
     ('kw-info-target', c_kwargs('info', 'target', 'prog', {})),
     ('kw-set-quote', c_kwargs('set', 'target', 'prog', {'install_dir': "it's"})),
+    ('kw-set-backslash', c_kwargs('set', 'target', 'prog', {'install_dir': 'C:\\temp\\new'})),
     ('proj-set-version', c_kwargs('set', 'project', '/', {'version': '2.0'})),
     ('proj-add-license', c_kwargs('add', 'project', '/', {'license': 'GPL'})),
     ('proj-rm-license', c_kwargs('remove', 'project', '/', {'license': 'MIT'})),
@@ -1351,7 +1463,7 @@ ALPHABET = [
 # the commands whose ordered pairs are run everywhere (add.rm, rm.add, set.delete, add twice, ...)
 PAIR_QUICK = ['add-new', 'rm-new', 'rm-existing', 'add-existing', 'xf-add', 'xf-rm-new', 'kw-set-new-true', 'kw-del-missing',
               'kw-set-str', 'kw-del-new-str', 'opt-set-new', 'opt-del-missing', 'proj-add-license', 'tgt-add', 'tgt-rm']
-NO_PAIR = {'tgt-add-existing', 'add-unknown-target', 'proj-bad-id', 'kw-set-quote'}
+NO_PAIR = {'tgt-add-existing', 'add-unknown-target', 'proj-bad-id', 'kw-set-quote', 'kw-set-backslash'}
 
 
 def layer_b(ck):
@@ -1395,6 +1507,140 @@ def layer_b(ck):
 
 
 # =========================================================================================================
+# Layer C: the two file lists of a target (sources / extra_files) x where a named file occurs
+#
+# A target has two lists a `target` command can edit.  "Changes only what it was asked to" quantifies over the
+# names a command may be given: a name can occur in the list the command addresses, in the OTHER list of the same
+# target, in both, in a list of another target, in an array that feeds no target at all, or nowhere.  The project
+# below has one file name of every such class (relative to either target); every list-editing operation is run
+# with every name (and every pair of names) on every way of writing the two lists.
+CROSS_FILES = {
+    #        sources                                         extra_files
+    'prog': (['main.c', 'both.h', 'shared.h', 'util.c'], ['README', 'both.h', 'common.txt', 'COPYING']),
+    'lib': (['lib.c', 'libboth.h', 'common.txt', 'util.c'], ['LIBNOTES', 'libboth.h', 'shared.h', 'COPYING']),
+}
+CROSS_NAMES = ['main.c', 'README', 'both.h', 'shared.h', 'common.txt', 'util.c', 'COPYING', 'lib.c', 'LIBNOTES', 'libboth.h',
+               'new.txt']
+CROSS_SF = ['pos', 'arr', 'mixed', 'var', 'files', 'kw']       # how the sources are written
+CROSS_XF = ['arr', 'var', 'files', 'str', 'none']              # how extra_files is written
+CROSS_OPS = ['src_add', 'src_rm', 'extra_files_add', 'extra_files_rm']
+
+
+def _strs(names):
+    return ', '.join("'%s'" % n for n in names)
+
+
+def cross_target(var, func, name, sf, xf):
+    """Statements that define one target whose sources / extra_files are written in the forms sf / xf."""
+    src, xfs = CROSS_FILES[name]
+    pre, pos, kw = [], [], []
+    if sf == 'pos':
+        pos = [_strs(src)]
+    elif sf == 'arr':
+        pos = ['[%s]' % _strs(src)]
+    elif sf == 'mixed':
+        # an array nested in the call next to direct strings: one command may have to edit both
+        pos = ['[%s]' % _strs(src[:2]), _strs(src[2:])]
+    elif sf == 'var':
+        pre.append('%s_srcs = [%s]\n' % (var, _strs(src)))
+        pos = [var + '_srcs']
+    elif sf == 'files':
+        pre.append('%s_srcs = files(%s)\n' % (var, _strs(src)))
+        pos = [var + '_srcs']
+    elif sf == 'kw':
+        kw.append('sources: [%s]' % _strs(src))
+    else:
+        raise AssertionError(sf)
+    kw.append("c_args: ['-DX=' + s, '-Dq=\\'1\\'']")
+    if xf == 'arr':
+        kw.append('extra_files: [%s]' % _strs(xfs))
+    elif xf == 'var':
+        pre.append('%s_docs = [%s]\n' % (var, _strs(xfs)))
+        kw.append('extra_files: %s_docs' % var)
+    elif xf == 'files':
+        kw.append('extra_files: files(%s)' % _strs(xfs))
+    elif xf == 'str':
+        # one extra file written as a bare string (the keyword takes `str | file | array`): the one that is a source too
+        kw.append("extra_files: '%s'" % xfs[1])
+    elif xf != 'none':
+        raise AssertionError(xf)
+    kw.append('install: (p and q) or r')
+    return ''.join(pre) + "%s = %s('%s', %s)\n" % (var, func, name, ',\n  '.join(pos + kw))
+
+
+def cross_text(sf, xf):
+    return ("project('p', version: '1.0')\n" + L.VARS_TEXT + "before = 'statement before'\n"
+            + cross_target('prog', 'executable', 'prog', sf, xf)
+            # an array of the same names that feeds no target
+            + "unrelated = ['main.c', 'README', 'both.h', 'new.txt']\n"
+            + cross_target('lib', 'static_library', 'lib', sf, xf)
+            + "after_variable = 1\n")
+
+
+def cross_where(rd, tname, fname):
+    """Where the reference reading of the project finds a file name, relative to the addressed target:
+    subset of {'own', 'other-list', 'other-target'} ('own' = the list the operation addresses)."""
+    out = {}
+    for _, r in rd.records:
+        if r['src'] is None:
+            continue
+        who = 'T' if L.rec_name(r) == tname else 'O'
+        if ('s', fname) in r['src']:
+            out[who + 'src'] = True
+        if ('s', fname) in r['items_kw'].get('extra_files', []):
+            out[who + 'xf'] = True
+    return out
+
+
+def layer_c(ck, stats):
+    """Quick: every operation x every single name on all shapes for the first target, on the 6 "diagonal" shapes for
+    the second; every unordered pair of the names the addressed target mentions (+ the new one) on 2 shapes.
+    Thorough: both targets and both command forms everywhere, every unordered pair of all names everywhere, every
+    ordered pair on the diagonal shapes."""
+    cases = []
+    n = {k: 0 for k in ('shapes', 'single_name', 'two_names', 'name_only_in_other_list', 'name_in_both_lists', 'name_only_in_other_target',
+                        'name_in_own_list', 'name_nowhere', 'second_target_addressed', 'info_of_initial_state')}
+    for sf in CROSS_SF:
+        for xf in CROSS_XF:
+            text = cross_text(sf, xf)
+            rd = L.read_program(text)
+            assert rd.eval_ok, (sf, xf)
+            n['shapes'] += 1
+            diagonal = CROSS_SF.index(sf) % len(CROSS_XF) == CROSS_XF.index(xf)
+            forms = ('cli', 'json') if ck.thorough else ('cli',)
+            for tname in (['prog', 'lib'] if (ck.thorough or diagonal) else ['prog']):
+                for form in forms:
+                    # the edit cases ask `info` only if the file changed: the initial state is observed here
+                    cases.append({'id': 'C/%s+%s/%s/%s/info' % (sf, xf, form, tname), 'layer': 'C', 'text': text, 'form': form,
+                                  'cmds': [c_target(tname, 'info')], 'observe': True, 'family': 'cross:info'})
+                    n['info_of_initial_state'] += 1
+                mentioned = [x for x in CROSS_NAMES if x in CROSS_FILES[tname][0] + CROSS_FILES[tname][1] + ['new.txt']]
+                for op in CROSS_OPS:
+                    lists = [[x] for x in CROSS_NAMES]
+                    if ck.thorough:
+                        lists += [[x, y] for x in CROSS_NAMES for y in CROSS_NAMES if x != y and (diagonal or x < y)]
+                    elif (sf, xf) in (('pos', 'arr'), ('mixed', 'files')):
+                        lists += [[x, y] for x in mentioned for y in mentioned if x < y]
+                    for files in lists:
+                        for form in (forms if len(files) == 1 else ('cli',)):
+                            cases.append({'id': 'C/%s+%s/%s/%s/%s/%s' % (sf, xf, form, tname, op, ','.join(files)), 'layer': 'C',
+                                          'text': text, 'cmds': [c_target(tname, op, files)], 'form': form, 'observe': 'if-changed',
+                                          'family': 'cross:%s:%s' % (op, 'pair' if len(files) > 1 else 'single')})
+                        n['single_name' if len(files) == 1 else 'two_names'] += 1
+                        n['second_target_addressed'] += tname == 'lib'
+                        own, other = ('Tsrc', 'Txf') if op.startswith('src') else ('Txf', 'Tsrc')
+                        for f in files:
+                            w = cross_where(rd, tname, f)
+                            n['name_in_own_list'] += own in w and other not in w
+                            n['name_only_in_other_list'] += other in w and own not in w
+                            n['name_in_both_lists'] += other in w and own in w
+                            n['name_only_in_other_target'] += not (own in w or other in w) and bool(w)
+                            n['name_nowhere'] += not w
+    stats.update(n)
+    return cases
+
+
+# =========================================================================================================
 def main():
     ck = Check('C17', 'exploration')
     if ck.args.replay:
@@ -1407,6 +1653,9 @@ def main():
         cases += layer_a(ck, stats)
     if ck.want('B'):
         cases += layer_b(ck)
+    cstats = {}
+    if ck.want('C'):
+        cases += layer_c(ck, cstats)
     by_id = {c['id']: c for c in cases}
     ck.require(len(by_id) == len(cases), 'case ids are not unique')
     total = new_counters()
@@ -1420,7 +1669,7 @@ def main():
             total[k] += v
         layer = c['layer']
         keys = sorted({k for k, _ in r['viol']})
-        outcome_classes.add((layer, c['family'] if layer == 'B' else '', tuple(keys), r['final'] != c['text']))
+        outcome_classes.add((layer, c['family'] if layer != 'A' else '', tuple(keys), r['final'] != c['text']))
         if r['viol']:
             n_viol_cases += 1
             pending.append((c, r))
@@ -1436,7 +1685,7 @@ def main():
                     ck.internal('nondeterministic verdict for %s: %r vs %r' % (c['id'], r['viol'], r2['viol']))
             ck.violation(key, '[%s] %s' % (c['id'], what),
                          {'case': {k: c[k] for k in ('id', 'text', 'cmds', 'form', 'layer', 'family') if k in c},
-                          'observe': bool(c.get('observe')), 'texts': r['texts']})
+                          'observe': c.get('observe', False), 'texts': r['texts']})
     # cold re-validation of a slice: the fork runner must be faithful to a fresh `python meson.py`
     cold_n = 0
     if ck.want('cold') and cases:
@@ -1455,10 +1704,11 @@ def main():
                 hist.setdefault(key, []).append(c['id'])
         for key in sorted(hist):
             print('HIST %5d %s   e.g. %s' % (len(hist[key]), key, hist[key][0]))
-    for k in ('A', 'B'):
+    for k in ('A', 'B', 'C'):
         sub = [c for c in cases if c['layer'] == k]
         ck.part('layer' + k, cases=len(sub))
     ck.part('layerA', **stats)
+    ck.part('layerC', **cstats)
     ck.part('counters', **total)
     ck.sample({'case': cases[0]['id'], 'cmd': cases[0]['cmds']})
     if len(cases) > 1:
